@@ -65,20 +65,25 @@ def main():
                       None, found_input=False)
         return ctx.finish(thm)
 
-    if not ctx.violations:
+    # the same input must give the same answer: asked again at the end of the run, and in fresh interpreters under other
+    # environments.  Also tried when only a disagreement with the model was found so far: a failing input of this kind
+    # explains the disagreement better than the disagreement itself, and is reported first.
+    if not any(v['kind'] != 'correspondence' for v in ctx.violations):
+        before = len(ctx.violations)
         rep = ctx.ask_again()
         if rep:
             name, req, first, got = rep
             ctx.violation('property', '%s fails on the implementation: %s%r answered %s the first time and %s when asked again at the end of the '
                           'run: the result is not a function of the input' % (pid, req[0], tuple(req[1]), first[:300], got[:300]), [req[0], req[1]])
-
-    if not ctx.violations:
-        rep = ctx.other_environments()
-        if rep:
-            vname, req, first, got = rep
-            ctx.violation('property', '%s fails on the implementation: %s%r answers %s in this process and %s in a fresh interpreter under '
-                          '%s: the result depends on the environment' % (pid, req[0], tuple(req[1]), first[:300], got[:300], vname),
-                          [req[0], req[1], vname])
+        else:
+            rep = ctx.other_environments()
+            if rep:
+                vname, req, first, got = rep
+                ctx.violation('property', '%s fails on the implementation: %s%r answers %s in this process and %s in a fresh interpreter under '
+                              '%s: the result depends on the environment' % (pid, req[0], tuple(req[1]), first[:300], got[:300], vname),
+                              [req[0], req[1], vname])
+        if len(ctx.violations) > before and before:
+            ctx.violations.insert(0, ctx.violations.pop())
 
     n, err = ctx.model.coq_crosscheck(ctx.all_requests)
     ctx.notes.append('extraction cross-check: %d requests re-evaluated by vm_compute inside Coq' % n)
